@@ -222,7 +222,8 @@ UNVERIFIED = {
             "BER/DER wrappers of src/nla/asn1.rs over the yasna crate: not under contract",
             "gcc conference create request/response round trip: only the PER prefix and Version::from are covered (unit mcs)",
             "write_numeric_string is correct only for one-digit strings (its single caller): outside the claimed domain"],
-    "C09": ["interleaved RLE: the two 8x-unrolled FGBG loops of rle_16_decompress (FGBG-class orders of >= 8 pixels on bitmaps wider than 8 px) are proved safe, not functionally (6^8 paths per iteration: no formulation closed within rlimit 400)",
+    "C09": ["COMPLETENESS of the RLE decoders (every conformant stream is ACCEPTED) is not proved: the contracts say `Ok ==> the output is the documented decode`; planar: the explicit rejections are justified by claims (reject-only-malformed), interleaved: not (a mechanical mutant `while pos < len` -> `<=` in rle_16_decompress, which rejects every stream at its end, survives: notes/mutscore.json)",
+            "interleaved RLE: the two 8x-unrolled FGBG loops of rle_16_decompress (FGBG-class orders of >= 8 pixels on bitmaps wider than 8 px) are proved safe, not functionally (6^8 paths per iteration: no formulation closed within rlimit 400)",
             "interleaved RLE: streams with a zero-length MEGA_MEGA order are outside the contract (the code keeps a stale insert-fg-pel flag there and accepts the non-order 0xF5 00 00: observations, DESIGN.md section 0.7)",
             "a background run that crosses the end of the first scanline followed by another background run: the code inserts the foreground pel, MS-RDPBCGR's pseudo-code clears the flag at the scanline change (found by the bounded Kani comparison; conforming encoders do not emit such runs)"],
 }
